@@ -2,12 +2,14 @@ package gen
 
 import (
 	"bytes"
+	"context"
 	"fmt"
 	"os"
 	"os/exec"
 	"path/filepath"
 	"runtime"
 	"strings"
+	"time"
 )
 
 // batchMark starts every delimiter line of the batch output protocol.
@@ -247,7 +249,11 @@ func runSubset(dir string, progs []Program, idx []int, res []GoResult) error {
 		}
 		return runSubset(dir, progs, rest, res)
 	}
-	run := exec.Command(filepath.Join(wd, "batch.bin"))
+	// watchdog only: generated programs end in milliseconds; a batch that runs for ten minutes is
+	// reported as an error (its unfinished programs stay Missing), never as a verdict
+	ctx, cancel := context.WithTimeout(context.Background(), 10*time.Minute)
+	defer cancel()
+	run := exec.CommandContext(ctx, filepath.Join(wd, "batch.bin"))
 	run.Dir = wd
 	var stdout, stderr bytes.Buffer
 	run.Stdout, run.Stderr = &stdout, &stderr
